@@ -6,7 +6,9 @@ cd /verif
 filter=${1:-}
 fail=0
 clean() { git -C /repo checkout -- . ; }
-trap clean EXIT
+# evidence and replays written while a patch is applied describe the patched tree: put the committed ones back
+restore_ev() { git -C /verif checkout -- evidence 2>/dev/null; }
+trap "clean; restore_ev" EXIT
 if [ -n "$(git -C /repo status --porcelain)" ]; then echo "/repo is dirty"; exit 2; fi
 run_one() { # name patch prop
   name=$1; patch=$2; prop=$3
